@@ -798,8 +798,8 @@ def _run_tree(case):
                 if is_twin:
                     t.run()  # the local run on the inputs held at submission
                     return "future"
-                if gated and os.path.exists(gate_path):
-                    os.remove(gate_path)
+                if gated and t.executor is not None and os.path.exists(gate_path):
+                    os.remove(gate_path)  # keep the job out until `complete`
                 r = do_run(t, True)
                 from concurrent.futures import Future
 
